@@ -77,6 +77,9 @@ type vfC10Op struct {
 	BadSID bool `json:"bad_sid,omitempty"`
 	// Minutes is the clock step of an advance.
 	Minutes int `json:"minutes,omitempty"`
+	// AskLease is the lease time, in seconds, the client asks for (option
+	// 51); 0 means it does not ask.
+	AskLease int `json:"ask_lease,omitempty"`
 }
 
 // vfC10Reply is what came back for a DHCP message.
@@ -85,6 +88,8 @@ type vfC10Reply struct {
 	Type string
 	// YIAddr is the assigned address; invalid when zero.
 	YIAddr netip.Addr
+	// Lease is the lease time the reply promises (option 51); 0 if none.
+	Lease time.Duration
 }
 
 func (r vfC10Reply) String() string {
@@ -586,6 +591,7 @@ func (w *vfC10World) exchange(req *dhcpv4.DHCPv4) (r vfC10Reply) {
 	if ip, ok := netip.AddrFromSlice(resp.YourIPAddr.To4()); ok && !ip.IsUnspecified() {
 		r.YIAddr = ip
 	}
+	r.Lease = resp.IPAddressLeaseTime(0)
 
 	return r
 }
@@ -702,7 +708,16 @@ func (w *vfC10World) onReply(mac string, r vfC10Reply) {
 		w.checkAssigned(mac, r)
 		w.acked[mac] = r.YIAddr
 		if _, ok := w.statics[mac]; !ok {
-			w.holders[mac] = vfC10Holder{IP: r.YIAddr, ExpiresAt: w.clock + vfC10LeaseSec*time.Second}
+			// the client holds the address for as long as the
+			// acknowledgement says
+			lease := r.Lease
+			if lease <= 0 {
+				lease = vfC10LeaseSec * time.Second
+			}
+			if lease != vfC10LeaseSec*time.Second {
+				w.flags["ack_with_other_lease_time"] = true
+			}
+			w.holders[mac] = vfC10Holder{IP: r.YIAddr, ExpiresAt: w.clock + lease}
 		}
 	}
 }
@@ -849,6 +864,10 @@ func (w *vfC10World) apply(op vfC10Op) (outcome string) {
 	var hostMod []dhcpv4.Modifier
 	if op.Host != "" {
 		hostMod = append(hostMod, dhcpv4.WithOption(dhcpv4.OptHostName(op.Host)))
+	}
+	if op.AskLease > 0 {
+		hostMod = append(hostMod, dhcpv4.WithOption(dhcpv4.OptIPAddressLeaseTime(time.Duration(op.AskLease)*time.Second)))
+		w.flags["client_asks_for_lease_time"] = true
 	}
 
 	switch op.Kind {
